@@ -113,12 +113,14 @@ def prepare(params):
     _PLAN.update(obj=obj, data=buf.getvalue())
 
 
-def _load_with_fuel(data, with_peek=True):
+def _load_with_fuel(data, with_peek=True, bs=8192):
     """Returns ('value', v) | ('raised', exc) | ('hang', why)."""
     import joblib
     import joblib.compressor as jc
-    fuel = [4 * (len(data) // 64) + 64]
-    dfuel = [4 * (len(data) // 64) + 64]
+    fuel = [4 * (len(data) // min(bs, 64)) + 64]
+    dfuel = [4 * (len(data) // min(bs, 64)) + 64]
+    saved_bs = jc._BUFFER_SIZE
+    jc._BUFFER_SIZE = bs
     real_dobj = jc.zlib.decompressobj
 
     class _Z:
@@ -153,6 +155,7 @@ def _load_with_fuel(data, with_peek=True):
                 return ("raised", e)
     finally:
         jc.zlib = zlib_real
+        jc._BUFFER_SIZE = saved_bs
 
 
 def _judge(res, obj, what):
@@ -187,18 +190,23 @@ def _suffixes(data):
             data[:3], b"\x80\x04."]
 
 
-def ob_trail(si: int, peek: bool) -> bool:
+BLOCKS = [1, 2, 3, 4, 5, 7, 8, 8192]
+
+
+def ob_trail(si: int, peek: bool, bi: int) -> bool:
     """
     pre: 0 <= si <= 7
+    pre: 0 <= bi <= 7
     post: _
     """
     H.enter()
-    s = H.select(si, 0, 7)
+    s, b = H.select(si, 0, 7), H.select(bi, 0, 7)
     pk = bool(peek)
     with H.native():
         data = _PLAN["data"]
-        res = _load_with_fuel(data + _suffixes(data)[s], pk)
-        ok = _judge(res, _PLAN["obj"], "file followed by suffix #%d" % s)
+        # the raw block size decides where the end-of-stream marker falls relative to a block boundary
+        res = _load_with_fuel(data + _suffixes(data)[s], pk, BLOCKS[b])
+        ok = _judge(res, _PLAN["obj"], "file followed by suffix #%d, raw block size %d" % (s, BLOCKS[b]))
         return H.verdict(ok)
 
 
@@ -341,7 +349,7 @@ def obligations(tier, seed):
                         "params": {"object": ob, "compressor": comp}, "timeout": 600,
                         "bounds": "every truncation length of the dump, file object with/without peek()"})
         obs.append({"name": "trail/%s" % comp, "fn": "ob_trail", "mode": "S", "params": {"object": "graph", "compressor": comp},
-                    "timeout": 300, "bounds": "8 suffixes (1 byte, zeros, 9000 junk bytes, second stream, half stream, ...), with/without peek()"})
+                    "timeout": 300, "bounds": "8 suffixes (1 byte, zeros, 9000 junk bytes, second stream, half stream, ...) x raw block size in {1,2,3,4,5,7,8,8192}, with/without peek()"})
     if have_np:
         for comp in (None, "zlib", "gzip") if tier == "quick" else COMPRESSORS:
             for ob in ("array",) if tier == "quick" else ("array", "arr_obj"):
